@@ -349,6 +349,10 @@ class World:
                 return (('gate', pending[0]), '', self._closing(self._gate_thunk(pending[0])))
         if 'play' in closing and proc.paused:
             return (('play',), '', self._closing(self._op_thunk(('play',), origin='closing')))
+        if 'play_if_asked' in closing and proc.paused and self.pause_stands():
+            # the closing play only answers a pause that somebody asked for: a process that reports paused although the last
+            # request was a play is not rescued
+            return (('play',), '', self._closing(self._op_thunk(('play',), origin='closing')))
         if 'resume_if_none' in closing and proc.state == ProcessState.WAITING and not any(
                 r['op'] == 'resume' and r['raised'] is None and r['state'] == ProcessState.WAITING
                 and r['nentered'] == self.n_entering for r in self.calls):
@@ -361,6 +365,17 @@ class World:
 
     def _end(self) -> None:
         self.ended = True
+
+    def pause_stands(self) -> bool:
+        """The last accepted request among pause / play is a pause."""
+        for rec in reversed(self.calls):
+            if rec['raised'] is not None:
+                continue
+            if rec['op'] == 'pause' and rec['live']:
+                return True
+            if rec['op'] == 'play':
+                return False
+        return False
 
     def ops_left(self) -> bool:
         return bool(self.cfg.alphabet)
